@@ -112,3 +112,120 @@ def generate_catalogue():
 
 def generate_dbprog():
     raise TranslationError('DbProg', 'not implemented yet')
+
+
+# ---------------------------------------------------------------------------------------------------------------
+# Catalogue.v — per view class: attributes of `self` written (assigned or mutated) from __iter__, transitively through
+# the methods it calls, and process-wide state touched.  A view with no entry here is stateless.
+# ---------------------------------------------------------------------------------------------------------------
+MUTATORS = {'append', 'extend', 'insert', 'pop', 'remove', 'clear', 'update', 'add', 'sort', 'reverse', 'setdefault',
+            'popitem', 'discard', 'seek', 'write', 'truncate', 'close', 'flush', 'appendleft', 'popleft'}
+GLOBAL_EFFECTS = {('pyrandom', 'seed'), ('pyrandom', 'setstate'), ('random', 'seed'), ('random', 'setstate')}
+
+
+def _self_attr(node):
+    """self.X (possibly behind subscripts) -> 'X'."""
+    while isinstance(node, ast.Subscript):
+        node = node.value
+    if isinstance(node, ast.Attribute) and isinstance(node.value, ast.Name) and node.value.id == 'self':
+        return node.attr
+    return None
+
+
+def _scan_method(cls_methods, name, seen, writes, effects, where):
+    if name in seen or name not in cls_methods:
+        return
+    seen.add(name)
+    fn = cls_methods[name]
+    for node in ast.walk(fn):
+        if isinstance(node, (ast.Assign, ast.AugAssign, ast.AnnAssign)):
+            targets = node.targets if isinstance(node, ast.Assign) else [node.target]
+            for t in targets:
+                for el in (t.elts if isinstance(t, (ast.Tuple, ast.List)) else [t]):
+                    a = _self_attr(el)
+                    if a is not None:
+                        writes.add(a)
+        elif isinstance(node, ast.Delete):
+            for t in node.targets:
+                a = _self_attr(t)
+                if a is not None:
+                    writes.add(a)
+        elif isinstance(node, ast.Global):
+            for g in node.names:
+                effects.add('global:' + g)
+        elif isinstance(node, ast.Call):
+            f = node.func
+            if isinstance(f, ast.Attribute):
+                # self.X.mutator(...)
+                a = _self_attr(f.value)
+                if a is not None and f.attr in MUTATORS:
+                    writes.add(a)
+                # self.method(...)
+                if isinstance(f.value, ast.Name) and f.value.id == 'self':
+                    _scan_method(cls_methods, f.attr, seen, writes, effects, where)
+                if isinstance(f.value, ast.Name) and (f.value.id, f.attr) in GLOBAL_EFFECTS:
+                    effects.add('%s.%s' % (f.value.id, f.attr))
+            # `self` handed to a function that is not one of its own methods: cannot be followed
+            for arg in list(node.args) + [kw.value for kw in node.keywords]:
+                if isinstance(arg, ast.Name) and arg.id == 'self':
+                    if not (isinstance(f, ast.Name) and f.id in ('super', 'isinstance', 'type', 'id', 'repr', 'str')):
+                        raise TranslationError('Catalogue', '%s passes self to %s: effects cannot be followed'
+                                               % (where, ast.dump(f)[:60]), node)
+
+
+def view_classes():
+    import glob
+    out = []
+    files = sorted(glob.glob(os.path.join(REPO, 'petl', '**', '*.py'), recursive=True))
+    for path in files:
+        rel = os.path.relpath(path, REPO)
+        if '/test/' in rel or rel.endswith('csv_py2.py'):
+            continue
+        try:
+            mod, _ = parse_module(rel)
+        except SyntaxError as e:
+            raise TranslationError('Catalogue', 'cannot parse %s: %s' % (rel, e))
+        classes = {n.name: n for n in mod.body if isinstance(n, ast.ClassDef)}
+        for cname, cls in sorted(classes.items()):
+            methods = {}
+            # own methods plus those of base classes defined in the same module (nearest first)
+            chain = [cls]
+            for b in cls.bases:
+                if isinstance(b, ast.Name) and b.id in classes:
+                    chain.append(classes[b.id])
+            for c in reversed(chain):
+                for m in c.body:
+                    if isinstance(m, ast.FunctionDef):
+                        methods[m.name] = m
+            if '__iter__' not in methods:
+                continue
+            writes, effects = set(), set()
+            _scan_method(methods, '__iter__', set(), writes, effects, '%s:%s' % (rel, cname))
+            out.append((rel[:-3].replace('/', '.'), cname, sorted(writes), sorted(effects)))
+    if len(out) < 50:
+        raise TranslationError('Catalogue', 'only %d view classes found (source layout changed?)' % len(out))
+    return out
+
+
+def generate_catalogue():
+    views = view_classes()
+    out = []
+    w = out.append
+    w('(* GENERATED on every run by translator/facts.py from /repo/petl/**/*.py. *)')
+    w('From Coq Require Import String List Bool.')
+    w('Import ListNotations.')
+    w('Open Scope string_scope.')
+    w('Record view_fact := { vf_module : string; vf_class : string; vf_writes : list string; vf_effects : list string }.')
+    w('Definition view_count : nat := %d.' % len(views))
+    w('(* only the views whose __iter__ (transitively) writes shared state; all others are stateless *)')
+    w('Definition stateful_views : list view_fact := [')
+    rows = []
+    for m, c, ws, es in views:
+        if ws or es:
+            rows.append('  {| vf_module := %s; vf_class := %s; vf_writes := [%s]; vf_effects := [%s] |}'
+                        % (coq_string(m), coq_string(c), '; '.join(coq_string(x) for x in ws),
+                           '; '.join(coq_string(x) for x in es)))
+    w(';\n'.join(rows))
+    w('].')
+    w('')
+    return '\n'.join(out)
